@@ -10,7 +10,8 @@ from vf.oracles import cumulative_quad_1d, ks_statistic, ks_threshold, norm_cdf
 PROPERTY = "C04"
 RULE = ("A Flow over a zoo transform (1-4 features, composites, context) with StandardNormal / ConditionalDiagonalNormal "
         "(Linear encoder, or identity encoder with row-identifying means 100*i and sigma 0.01) / MADE-mixture base, optional "
-        "embedding network, MaskedAutoregressiveFlow, SimpleRealNVP; context none or 1-4 separated rows (row i shifted by 2*i); num_samples 1-7; "
+        "embedding network, MaskedAutoregressiveFlow, SimpleRealNVP (also with dropout_probability 0.3, batch norm within / between layers and "
+        "parameters moved by N(0, 0.2..0.4) from their near-identity initialisation); context none or 1-4 separated rows (row i shifted by 2*i); num_samples 1-7; "
         "float64. (a) pairing: for (s, lp) = sample_and_log_prob(n, c): shapes [rows, n, D] / [rows, n] and lp[i, j] = "
         "log_prob(s[i, j], c[i]) (1e-6 relative); without context per draw. (b) block identity: with the row-identifying base, "
         "transform_to_noise(sample(n, c)[i], c[i]) lies within 0.2 of 100*i. (c) 1-D flows: KS distance between 20000 samples "
